@@ -37,6 +37,7 @@ type tcase struct {
 	Ins    []insT   `json:"ins"`
 	Ops    []string `json:"ops"`
 	Pairs  []string `json:"pairs"`
+	Ar     []int    `json:"ar"`
 	Nodes  int      `json:"nodes"`
 }
 
@@ -49,6 +50,7 @@ type prog struct {
 	canonw string
 	ops    []string
 	pairs  []string
+	ar     []int
 	nl     []string // for every line break of the spelling: "token before|token after"
 	nodes  int
 }
@@ -179,7 +181,7 @@ func isClose(t string) bool { return t == ")" || t == "]" || t == "}" || t == ")
 func expand(c *tcase, seed int64, line int, muts int) []prog {
 	rnd := rand.New(rand.NewSource(seed*1000003 + int64(line)))
 	out := []prog{}
-	base := prog{src: join(c.Toks, seed, rnd), kind: c.Kind, why: c.Why, ops: c.Ops, pairs: c.Pairs, nl: nlPairs(c.Toks), nodes: c.Nodes}
+	base := prog{src: join(c.Toks, seed, rnd), kind: c.Kind, why: c.Why, ops: c.Ops, pairs: c.Pairs, ar: c.Ar, nl: nlPairs(c.Toks), nodes: c.Nodes}
 	if c.Kind == "accept" {
 		base.canon = joinCanon(c.Canon, seed)
 		base.canonw = base.canon
@@ -205,7 +207,7 @@ func expand(c *tcase, seed int64, line int, muts int) []prog {
 						if t == "(:mix" {
 							why = "??-mixed-with-||-or-&&"
 						}
-						out = append(out, prog{src: join(without(c.Toks, i, j), seed, rnd), kind: "reject", why: why, ops: c.Ops, pairs: c.Pairs, nodes: c.Nodes})
+						out = append(out, prog{src: join(without(c.Toks, i, j), seed, rnd), kind: "reject", why: why, ops: c.Ops, pairs: c.Pairs, ar: c.Ar, nodes: c.Nodes})
 						break
 					}
 				}
@@ -220,7 +222,7 @@ func expand(c *tcase, seed int64, line int, muts int) []prog {
 		if muts < 2 && rnd.Intn(3) != 0 {
 			continue
 		}
-		out = append(out, prog{src: join(without(c.Toks, d-1), seed, rnd), kind: "reject", why: "bracket-deleted:" + tokText(c.Toks[d-1]), ops: c.Ops, pairs: c.Pairs, nodes: c.Nodes})
+		out = append(out, prog{src: join(without(c.Toks, d-1), seed, rnd), kind: "reject", why: "bracket-deleted:" + tokText(c.Toks[d-1]), ops: c.Ops, pairs: c.Pairs, ar: c.Ar, nodes: c.Nodes})
 	}
 	// one bracket inserted
 	for _, in := range c.Ins {
@@ -228,7 +230,7 @@ func expand(c *tcase, seed int64, line int, muts int) []prog {
 			continue
 		}
 		t2 := append(append(append([]string{}, c.Toks[:in.At]...), in.Tok), c.Toks[in.At:]...)
-		out = append(out, prog{src: join(t2, seed, rnd), kind: "reject", why: "bracket-inserted:" + in.Tok, ops: c.Ops, pairs: c.Pairs, nodes: c.Nodes})
+		out = append(out, prog{src: join(t2, seed, rnd), kind: "reject", why: "bracket-inserted:" + in.Tok, ops: c.Ops, pairs: c.Pairs, ar: c.Ar, nodes: c.Nodes})
 	}
 	return out
 }
@@ -244,7 +246,19 @@ type result struct {
 // the verdict is the trace specification's).
 func runProg(p *prog) result {
 	res := result{}
-	open := tr.E{"src": tr.Ints([]byte(p.src)), "kind": p.kind, "why": p.why, "canon": tr.Ints([]byte(p.canon)), "canonw": tr.Ints([]byte(p.canonw)), "ops": p.ops, "pairs": p.pairs, "nl": p.nl, "nodes": p.nodes}
+	if p.ops == nil {
+		p.ops = []string{}
+	}
+	if p.pairs == nil {
+		p.pairs = []string{}
+	}
+	if p.ar == nil {
+		p.ar = []int{}
+	}
+	if p.nl == nil {
+		p.nl = []string{}
+	}
+	open := tr.E{"src": tr.Ints([]byte(p.src)), "kind": p.kind, "why": p.why, "canon": tr.Ints([]byte(p.canon)), "canonw": tr.Ints([]byte(p.canonw)), "ops": p.ops, "pairs": p.pairs, "ar": p.ar, "nl": p.nl, "nodes": p.nodes}
 	res.evs = append(res.evs, open)
 	for oi, o := range allOpts {
 		ev := tr.E{"opts": oi, "w2f": o.WhileToFor}
@@ -469,6 +483,7 @@ func File(args []string) {
 			CanonW []int    `json:"canonw"`
 			Ops    []string `json:"ops"`
 			Pairs  []string `json:"pairs"`
+			Ar     []int    `json:"ar"`
 			Nl     []string `json:"nl"`
 			Nodes  int      `json:"nodes"`
 		}
@@ -476,7 +491,7 @@ func File(args []string) {
 			fmt.Fprintln(os.Stderr, "bad line", err)
 			os.Exit(2)
 		}
-		p := prog{src: string(toBytes(c.Src)), kind: c.Kind, why: c.Why, canon: string(toBytes(c.Canon)), canonw: string(toBytes(c.CanonW)), ops: c.Ops, pairs: c.Pairs, nl: c.Nl, nodes: c.Nodes}
+		p := prog{src: string(toBytes(c.Src)), kind: c.Kind, why: c.Why, canon: string(toBytes(c.Canon)), canonw: string(toBytes(c.CanonW)), ops: c.Ops, pairs: c.Pairs, ar: c.Ar, nl: c.Nl, nodes: c.Nodes}
 		r := runProg(&p)
 		tid++
 		w.Begin(tid)
